@@ -11,6 +11,19 @@ E2 = "stateless model checking: exhaustive DFS of the choice tree of RNG answers
 E3 = "explicit-state BFS over operation histories of the real object, reference-model comparison in every state"
 
 CHECKS = {
+    "C03": dict(
+        built=True,
+        category="exploration",
+        engine="E1",
+        technique=E1 + "; all small LPs over integer alphabets, exact rational vertex-enumeration oracle with duality self-check",
+        text="All LPs with (n,m) up to (2,2) over A in {-1,0,1,2}, b in {-2..2}, c in {-1,0,1,2}, all (2,3),(3,2),(1,3),(3,1) shapes and "
+        "complete blocks of the 3x3 shape over {-1,0,1}, min and max: solve_lp's status must equal the exact verdict and its point "
+        "must be feasible with objective = c.x = exact optimum; solve_lp_interior must never raise, never say OPTIMAL without a "
+        "matching optimum, and any FEASIBLE answer must be within the 0.01 residual.",
+        note="Trusts: Gaussian elimination over fractions.Fraction (oracle aborts as broken if strong duality fails). Bound: "
+        "<= 3 variables, <= 3 rows, coefficients in {-2..3}; MAX_ITER from solve_lp is exempt and counted.",
+        ref="2/C03",
+    ),
     "C16": dict(
         built=True,
         category="exploration",
